@@ -15,6 +15,15 @@ import Driver.Util
       protofile          `_` | hex | hex+ (with includePackageFiles)
       files    `_` | file|file…   file = hexpath>hexpkg>syntaxflag(>import)*  import = [!]hex  (! = unused)
 
+  A workspace read from disk with its buf.lock files keeps the structure the add order is derived
+  from (BufModel.Graph.v1Adds / v2Adds):
+
+    wsl <TAB> v1 <TAB> <group>#<group>…    one group per `directories:` entry of buf.work.yaml:
+                                           the pins of that directory's buf.lock, then the local
+                                           module (added modules as above, `;`-separated)
+    wsl <TAB> v2 <TAB> <lock>#<locals>     the pins of the top-level buf.lock (`_` = none), then
+                                           the modules of buf.yaml
+
   answer:  mods=… <TAB> deps=… <TAB> dag=… <TAB> ls=…
 -/
 namespace Driver.C10
@@ -79,11 +88,37 @@ structure Built where
   sel : List Added
   xs : List XAdded
 
-def build (xs : List XAdded) : Built :=
-  let sel := uniqueAdded (xs.map (·.a))
+def buildFrom (adds : List Added) (xs : List XAdded) : Built :=
+  let sel := uniqueAdded adds
   let ws : WS := { mods := sel.map Added.toMod, wkt := wkt }
   let cfgs := sel.map (fun a => ((xs.find? (fun x => x.a.idx == a.idx)).map (·.cfg)).getD {})
   { tws := { ws := ws, cfgs := cfgs }, sel := sel, xs := xs }
+
+def build (xs : List XAdded) : Built := buildFrom (xs.map (·.a)) xs
+
+/-- `#`-separated groups of added modules; `idx` runs over the whole line. -/
+def parseGroups (s : String) : Option (List (List XAdded)) :=
+  let rec go : List String → Nat → Option (List (List XAdded))
+    | [], _ => some []
+    | g :: rest, n => do
+      let parts := parseList g ";"
+      let xs ← (parts.zipIdx).mapM (fun x => parseAdded (n + x.2) x.1)
+      let more ← go rest (n + parts.length)
+      some (xs :: more)
+  go (s.splitOn "#") 0
+
+/-- a buf.work.yaml directory: its buf.lock pins followed by the local module. -/
+def toLocked (g : List XAdded) : Option LockedMod :=
+  match g.reverse with
+  | l :: ps => some { pins := ps.reverse.map (·.a), loc := l.a }
+  | [] => none
+
+/-- the add sequence of a workspace on disk (BufModel.Graph.v1Adds / v2Adds). -/
+def diskAdds (kind : String) (gs : List (List XAdded)) : Option (List Added) :=
+  if kind = "v1" then (gs.mapM toLocked).map v1Adds
+  else match gs with
+    | [lock, locs] => some (v2Adds (lock.map (·.a)) (locs.map (·.a)))
+    | _ => none
 
 def b01 (b : Bool) (t f : String) : String := if b then t else f
 
@@ -108,16 +143,24 @@ def showLs (r : Except LsErr (List (Str × Bool))) : String :=
   | .error e => "err/" ++ e.tag
   | .ok l => "ok/" ++ ",".intercalate (l.map fun x => enc (l2s x.1) ++ b01 x.2 "-" "+")
 
+def answer (b : Built) : String :=
+  let ws := b.tws.ws
+  let n := ws.mods.length
+  "mods=" ++ showMods b.sel ++ "\tdeps=" ++ ";".intercalate ((List.range n).map fun m => showDeps (moduleDeps ws m))
+    ++ "\tdag=" ++ showDag (toDAG ws) ++ "\tls=" ++ showLs (lsFiles ws (isTargetIn b.tws))
+
 def handle : List String → String
   | ["ws", s] =>
     match parseWs s with
     | none => "bad-op"
-    | some xs =>
-      let b := build xs
-      let ws := b.tws.ws
-      let n := ws.mods.length
-      "mods=" ++ showMods b.sel ++ "\tdeps=" ++ ";".intercalate ((List.range n).map fun m => showDeps (moduleDeps ws m))
-        ++ "\tdag=" ++ showDag (toDAG ws) ++ "\tls=" ++ showLs (lsFiles ws (isTargetIn b.tws))
+    | some xs => answer (build xs)
+  | ["wsl", kind, s] =>
+    match parseGroups s with
+    | none => "bad-op"
+    | some gs =>
+      match diskAdds kind gs with
+      | none => "bad-op"
+      | some adds => answer (buildFrom adds gs.flatten)
   | _ => "bad-op"
 
 def run : IO Unit := runLines handle
